@@ -30,6 +30,7 @@ import (
 	"reflect"
 	"strings"
 	"time"
+	"unsafe"
 )
 
 func init() { register("c11", runC11) }
@@ -1223,6 +1224,61 @@ func (d *c11Drv) partLagrange(thorough bool) {
 	}
 }
 
+// partSeal: MpcSetup.Seal(beacon) multiplies the i-th G1 power by c^i and [tau]G2 by c, c derived from the hash of the
+// setup's serialisation and the beacon by hash-to-field. The setup before (serialised bytes, points) and the sealed
+// reference string are logged; the specification recomputes c (SHA-256, expand_message_xmd) and the points.
+func (d *c11Drv) partSeal() {
+	for _, N := range []int{2, 3, 5} { // a reference string has at least two points (NewSRS: ErrMinSRSSize)
+		for contributions := 0; contributions <= 1; contributions++ {
+			for _, beacon := range [][]byte{{}, []byte("beacon"), d.r.Bytes(70)} {
+				ms := reflect.New(d.k.Types["MpcSetup"])
+				e := Ev{"op": "Seal", "N": N, "contributions": contributions, "beacon": bytesToInts(beacon)}
+				var wire bytes.Buffer
+				var sealed reflect.Value
+				var before reflect.Value
+				_, pm, pk := call(reflect.ValueOf(func() {
+					ms.Elem().Set(d.k.Funcs["InitializeSetup"].Call([]reflect.Value{reflect.ValueOf(N)})[0])
+					for i := 0; i < contributions; i++ {
+						method(ms, "Contribute").Call(nil)
+					}
+					method(ms, "WriteTo").Call([]reflect.Value{reflect.ValueOf(&wire)})
+					before = c11SrsPoints(ms.Elem().FieldByName("srs"))
+					sealed = method(ms, "Seal").Call([]reflect.Value{reflect.ValueOf(append([]byte{}, beacon...))})[0]
+				}))
+				if pk {
+					e["panic"] = pm
+					d.emit(e)
+					continue
+				}
+				e["wire"] = bytesToInts(wire.Bytes())
+				e["before"] = before.Interface()
+				e["after"] = c11SrsPoints(sealed).Interface()
+				d.emit(e)
+			}
+		}
+	}
+}
+
+// c11SrsPoints: {"g1s": [...], "vkg1": p, "g2": [p, p]} of an SRS value (unexported fields are read, never written)
+func c11SrsPoints(srs reflect.Value) reflect.Value {
+	pkv := srs.FieldByName("Pk").FieldByName("G1")
+	vk := srs.FieldByName("Vk")
+	g1s := []any{}
+	for i := 0; i < pkv.Len(); i++ {
+		g1s = append(g1s, enc(c11Readable(pkv.Index(i))))
+	}
+	return reflect.ValueOf(Ev{"g1s": g1s, "vkg1": enc(c11Readable(vk.FieldByName("G1"))),
+		"g2": []any{enc(c11Readable(vk.FieldByName("G2").Index(0))), enc(c11Readable(vk.FieldByName("G2").Index(1)))}})
+}
+
+// c11Readable makes an addressable value reached through an unexported field readable by reflection
+func c11Readable(v reflect.Value) reflect.Value {
+	if v.CanInterface() || !v.CanAddr() {
+		return v
+	}
+	return reflect.NewAt(v.Type(), unsafe.Pointer(v.UnsafeAddr())).Elem()
+}
+
 func (d *c11Drv) partSerial2() {
 	if !d.evNewSRS(5, d.rnd()) {
 		return
@@ -1359,6 +1415,7 @@ func runC11(args []string) {
 		run("srs", 4, func(d *c11Drv) { d.partSRS() })
 		run("serial", 5, func(d *c11Drv) { d.partSerial2() })
 		run("lagrange", 7, func(d *c11Drv) { d.partLagrange(thorough) })
+		run("seal", 8, func(d *c11Drv) { d.partSeal() })
 	}
 	fmt.Printf("c11: %d events\n", total)
 }
